@@ -19,6 +19,10 @@ CHECKS = [
      'technique': RM + 'relational monitor over boundary sequences of related streams (shared suffix, aligned edits, independent keys) and over chunk tables of two real snapshots',
      'text': 'Pairs of related high-entropy streams through the real adapter: from the first common boundary on boundaries must be equal up to the tail zone; re-synchronisation within D=1024*max (failure probability < 1e-28, appendix A); independent keys give different boundaries; a file stored behind two different predecessors shares its interior chunks between two real snapshots.',
      'note': 'Statistical bound only for random data with min <= max/16 (as the property states); observed re-join distances are reported.'},
+    {'id': 'C03', 'level': 'fault_enumeration', 'ref': 'DESIGN.md section 4 C03',
+     'technique': RM + 'crash-point enumeration (every prefix of the recorded mutation sequence on in-memory backends; os._exit at every audited filesystem mutation and right after every replace/unlink of a child process on the local backend; one permanent failure of the k-th backend call) + follow-up oracle run by fresh Repository objects on each state',
+     'text': 'For snapshot, delete and clean on a repository holding two snapshots that share chunks (plus orphans for clean): every state a kill or a permanent backend failure can leave is handed to a follow-up oracle: every listed snapshot restores exactly (the interrupted one fully or not at all), every listed object is complete (content-addressed check by an independent reader), no temporary is listed, a new snapshot of the same data, its restore and clean succeed, and after clean the chunk objects equal the referenced set.',
+     'note': 'Power-loss durability is not claimed (the code does not fsync). A kill inside a write() is emulated by truncating temporaries. Kill points of the local backend are sampled per case when a command has more than the per-case budget.'},
     {'id': 'C04', 'level': 'fault_enumeration', 'ref': 'DESIGN.md section 4 C04',
      'technique': RM + 'fault injection on stored objects (corruption families x object kinds x encrypted/plain, singly and in pairs) followed by the real restore; oracle = raised, or byte-equal to the restore model over the snapshots not removed; cache-off and cache-on-with-retries variants',
      'text': 'For repositories written by the real snapshot command, every corruption family of the property (bit flips at first/last/nonce/tag/seeded offsets, truncations, extensions, swaps within and across kinds, replays, deletions), singly and in seeded pairs, is applied to a copy of the object map; the real restore (untargeted or targeted, with the snapshot cache off or on and retried after a failure) must raise or produce exactly what the intact snapshots hold. The three verification branches (chunk hash, snapshot hash, AEAD) must each have been reached.',
